@@ -46,15 +46,19 @@ def extractOut (o : OutPkt) : PktSig :=
 /-! ### decidable forms of the hypotheses of the C05 theorem (evaluated by the driver on every run) -/
 
 def layoutLenB (l : List Nat) : Nat :=
-  (l.map fun k => if k = 1 then 1 else if k = 2 then 4 else if k = 3 then 3 else if k = 4 then 2 else 10).sum
+  (l.map fun k => if k = 1 then 1 else if k = 2 then 4 else if k = 3 then 3 else if k = 4 then 2
+    else if k = 5 ∨ k = 8 then 10 else 2).sum
+
+/-- layout entries `_align_options` can stretch: SACK and the kinds unknown to p0f -/
+def stretchable (k : Nat) : Bool := k != 1 && k != 2 && k != 3 && k != 4 && k != 8
 
 /-- the class of signatures `imp_exact_partial` covers, as a Boolean (see `Supported` in P0f/Props/C05.lean) -/
 def supportedB (s : Sig) (b : Base) : Bool :=
   let body := s.layout.takeWhile (· != 0)
   let ends := s.layout.contains 0
   (s.ipVer.isNone || s.ipVer == some b.ipVer)
-  && body.all (fun k => k == 1 || k == 2 || k == 3 || k == 4 || k == 8)
-  && (layoutLenB body + (if ends then 1 + s.eolPad else 0)) % 4 == 0
+  && body.all (fun k => decide (k ≤ 255))
+  && (body.any stretchable || (layoutLenB body + (if ends then 1 + s.eolPad else 0)) % 4 == 0)
   && (ends || s.eolPad == 0)
   && (b.ipVer != 6 || s.olen == 0) && s.olen % 4 == 0
   && decide (1 ≤ s.ttl) && decide (s.ttl ≤ 255)
